@@ -19,7 +19,7 @@ Proof.
 Qed.
 Lemma param_ids_nodup : NoDup (map fst param_fields).
 Proof. apply nodupb_NoDup. vm_compute. reflexivity. Qed.
-Lemma param_ids_small : forallb (fun p => fst p <? 4294967296) param_fields = true.
+Lemma param_ids_small : forallb (fun p => (fst p <? 4294967296) && (0 <? fst p)) param_fields = true.
 Proof. vm_compute. reflexivity. Qed.
 
 Lemma assoc_app_notin {A} k (a b : list (N * A)) : ~ In k (map fst a) -> assoc k (a ++ b) = assoc k b.
@@ -109,14 +109,14 @@ Lemma run_nil st : run 0 st [] = Ok st.
 Proof. reflexivity. Qed.
 
 (* ---- what a well-formed field is *)
-Lemma field_cases id k f : field_wf u2g gdom id k f = true ->
+Lemma field_cases id k f : 0 < id -> field_wf u2g gdom id k f = true ->
   (f = unset k /\ is_set f = false /\ enc_field u2g k f = []) \/
   (exists plen x, f = VL [VN id; VN plen; x] /\ is_set f = true /\ k <> KNone /\
      enc_field u2g k f = be_enc 4 id ++ [plen] ++ enc_value u2g k x /\
      len (enc_value u2g k x) = plen /\
      (param_kind id = Some k -> parse_param g2u id plen (enc_value u2g k x) = Ok (Some x))).
 Proof.
-  unfold field_wf. intros H. apply orb_true_iff in H. destruct H as [H|H].
+  unfold field_wf. intros Hid H. apply orb_true_iff in H. destruct H as [H|H].
   - left. apply val_eqb_eq in H. subst f. destruct k; repeat split; reflexivity.
   - right. destruct f as [a|b|l]; try discriminate H.
     destruct l as [|[id'|?|?] [|[plen|?|?] [|x [|? ?]]]]; try discriminate H.
@@ -134,7 +134,7 @@ Proof.
       intros PK. rewrite PK. reflexivity.
     + (* KStr *) repeat (apply andb_true_iff in H; destruct H as [H ?]).
       match goal with E : (plen =? _) = true |- _ => apply N.eqb_eq in E end.
-      replace (plen =? 0) with false by lia.
+      replace (id =? 0) with false by lia. rewrite andb_false_r.
       repeat split; try reflexivity; try discriminate; try lia.
       intros PK. rewrite PK. now rewrite Hc.
     + (* KB4 *) apply andb_true_iff in H. destruct H as [H1 H2]. apply N.eqb_eq in H1. subst plen.
@@ -162,14 +162,15 @@ Proof.
     assert (ET' : param_fields = (done ++ [(id, k)]) ++ todo) by (rewrite <- app_assoc; exact ET).
     assert (L' : length (fs_done ++ [f]) = length (done ++ [(id, k)])) by (rewrite !app_length; cbn [length]; lia).
     rewrite count_set_cons in *. cbn [map snd enc_fields].
-    destruct (field_cases id k f Wf) as [(-> & S & E)|(plen & x & -> & S & Hk & E & Le & P)]; rewrite S in *; rewrite E.
+    assert (Hid : id < 4294967296 /\ 0 < id).
+    { pose proof param_ids_small as S0. rewrite forallb_forall in S0.
+      specialize (S0 (id, k)). cbn [fst] in S0. apply andb_true_iff in S0; [lia|]. rewrite ET. apply in_or_app. right. now left. }
+    destruct Hid as [Hid Hid0].
+    destruct (field_cases id k f Hid0 Wf) as [(-> & S & E)|(plen & x & -> & S & Hk & E & Le & P)]; rewrite S in *; rewrite E.
     + cbn [app]. specialize (IH _ _ _ c0 ET' L' W ltac:(lia)).
       rewrite <- !app_assoc in IH. cbn [app] in IH. rewrite N.add_0_l. exact IH.
     + pose proof param_ids_nodup as ND. rewrite ET, map_app in ND. cbn [map fst] in ND.
       apply NoDup_remove_2 in ND. assert (NI : ~ In id (map fst done)) by (intros Hin; apply ND, in_or_app; now left).
-      assert (Hid : id < 4294967296).
-      { pose proof param_ids_small as S0. rewrite forallb_forall in S0.
-        specialize (S0 (id, k)). cbn [fst] in S0. apply N.ltb_lt, S0. rewrite ET. apply in_or_app. right. now left. }
       assert (PK : param_kind id = Some k).
       { unfold param_kind. rewrite ET, assoc_app_notin by exact NI. cbn [assoc]. rewrite N.eqb_refl.
         destruct k; try reflexivity. congruence. }
@@ -197,7 +198,7 @@ Proof.
     destruct o as [?|?|[|[id|?|?] [|[plen|?|?] [|[?|c|?] [|? ?]]]]]; try discriminate W.
     repeat (apply andb_true_iff in W; destruct W as [W ?]).
     destruct (param_kind id) eqn:PK; [discriminate|].
-    cbn [flat_map enc_other]. replace (plen =? 0) with false by lia.
+    cbn [flat_map enc_other]. replace ((plen =? 0) && (id =? 0)) with false by lia.
     rewrite <- !app_assoc. rewrite run_item by lia.
     unfold parse_param. rewrite PK. cbn [bind]. unfold upd. cbn [fst snd].
     rewrite other_put_end by (eapply Forall_impl; [|exact B]; cbn [other_id]; intros; lia).
